@@ -17,6 +17,8 @@ CHECKS = {
          "the interleaving of edits across live objects is the schedule; ctor twins share nested node-attribute values by design and receive no nested edits"),
  "C08": ("observers (every xgi callable whose first parameter is a network, enumerated by introspection, plus view/stat methods) interleaved with mutations; deep ordered snapshot incl. next automatic ID before/after each call, and a differential schedule: the same run with all reads elided must end in the same world",
          "arguments are synthesised from parameter names and the current state; callables that never returned normally are listed in the evidence (callable_coverage)"),
+ "C10": ("converter round trips (hyperedge list/dict, bipartite edge list, incidence matrix with index maps, bipartite graph with scheduler-chosen vertex/edge insertion order, dataframe, standard dict incl. refusal of colliding casts, HIF dict) and class-to-class constructions as derive transitions on history-reached sources; birth state compared with the model's projection per representation; the result joins the world and keeps being edited",
+         "apart from the construction-order schedule of the bipartite graph there is no fault or interleaving here (DESIGN C10 honest limit); representations are only fed networks inside their stated domain (homogeneous labels for bare lists and pandas, closed complexes for simplicial targets)"),
  "C11": ("durable-store simulation: write_F / read_F (hif, hif collection, json, json collection, edge list, bipartite edge list, incidence matrix) over a few shared paths on top of a simulated raw device under Python's real buffering/text layers: short reads and writes always on, ENOSPC/EIO after k bytes, failing open/close; acknowledged-write rule checked against the model's projection per format, read results join the world and keep being edited",
          "the raw device is the only stub (FileIO subclass); labels/values are generated inside each format's stated domain; after a failed write the path is indeterminate until the next acknowledged write"),
  "C18": ("freeze as an operation of the world plus subhypergraph results; every structural call that would change an unfrozen copy must raise XGIError and change nothing; the mutator surface is discovered by probing dir(class) and in_place functions on an unfrozen copy and replaying on the frozen network; is_frozen checked on every actor at every step; copies of frozen networks are unfrozen, equal and editable",
